@@ -266,32 +266,12 @@ theorem no_private_key_operation_no_token_write (ext : Externals) (args : TaArgs
 
 /-! ## Order and rendering -/
 
-theorem sortDigests_sorted (l : List KeyDigest) :
-    (sortDigests l).Pairwise (fun a b => a.validFrom ≤ b.validFrom) ∧ (sortDigests l).Perm l := by
-  refine ⟨?_, List.mergeSort_perm l _⟩
-  have := List.pairwise_mergeSort (le := fun a b : KeyDigest => decide (a.validFrom ≤ b.validFrom))
-    (by intro a b c h1 h2; simp only [decide_eq_true_eq] at *; omega)
-    (by intro a b; simp only [Bool.or_eq_true, decide_eq_true_eq]; omega) l
-  exact this.imp (by intro a b h; simpa using h)
-
 /-- **Entries are sorted by validFrom**: the rendered entries are the `to_xml` snippets of the exported
     set, each exactly once, in non-decreasing order of validFrom. -/
 theorem entries_sorted (ta : TrustAnchorDoc) :
     ∃ order : List KeyDigest, ta.entries = order.map KeyDigest.toXml ∧ order.Perm ta.keyDigests ∧
       order.Pairwise (fun a b => a.validFrom ≤ b.validFrom) :=
   ⟨sortDigests ta.keyDigests, rfl, (sortDigests_sorted _).2, (sortDigests_sorted _).1⟩
-
-theorem pairwise_ne_of_mem {l : List KeyDigest} (hl : l.Pairwise (fun a b => a.validFrom ≠ b.validFrom))
-    {a b : KeyDigest} (ha : a ∈ l) (hb : b ∈ l) (hn : a ≠ b) : a.validFrom ≠ b.validFrom := by
-  induction l with
-  | nil => simp at ha
-  | cons x r ih =>
-    rw [List.pairwise_cons] at hl
-    rcases List.mem_cons.mp ha with rfl | ha' <;> rcases List.mem_cons.mp hb with rfl | hb'
-    · exact absurd rfl hn
-    · exact hl.1 _ hb'
-    · exact fun e => hl.1 _ ha' e.symm
-    · exact ih hl.2 ha' hb'
 
 /-- **The iteration order of the Python set does not matter** beyond ties: two orders of the same set
     give rendered entries that are permutations of each other, both sorted; when the validFrom values
